@@ -2717,6 +2717,8 @@ pub fn check(
             experimental,
         );
 
+        #[cfg(feature = "verif")]
+        sway_core::verif_hooks::point("pkg.check_retrigger");
         if retrigger_compilation
             .as_ref()
             .is_some_and(|b| b.load(std::sync::atomic::Ordering::SeqCst))
